@@ -80,6 +80,13 @@ def _leaf_strings(node, path=()):
     elif isinstance(node, dict):
         for k, v in node.items():
             if k == "times":
+                # a repetition count or bound handed in as an argument: integers only (that is what a literal count is)
+                if isinstance(v, int) and not isinstance(v, bool):
+                    yield path + (k,), v
+                elif isinstance(v, dict):
+                    for kk, vv in v.items():
+                        if kk in ("min", "max") and isinstance(vv, int) and not isinstance(vv, bool):
+                            yield path + (k, kk), vv
                 continue
             if isinstance(v, (str, int)) and not isinstance(v, bool):
                 yield path + (k,), v
@@ -196,6 +203,8 @@ class Factoring:
                     self.forms.append("param:arguments-indented-under-the-call-key" + ("-as-list" if call.nested == "list" else ""))
                 if call.args_first:
                     self.forms.append("param:call-key-after-its-arguments")
+                if any("times" in p for p, _ in chosen):
+                    self.forms.append("param:repetition-count-as-argument")
                 for (p, s), f in zip(chosen, formals):
                     _set(body, p, f)
                     call[f] = s
@@ -220,7 +229,7 @@ class Factoring:
                     call2.args_first = (not call2.nested) and r8 > 0.85
                     inst = copy.deepcopy(body)
                     for (p, s), f in zip(chosen, formals):
-                        v = call[f] if same else rng.choice(self.decoys + [s])
+                        v = call[f] if same else rng.choice([1, 2, 3, s]) if "times" in p else rng.choice(self.decoys + [s])
                         if v in formals:
                             v = s
                         call2[f] = v
